@@ -14,8 +14,9 @@
 import ast
 import math
 
-from ..core import AnalysisError, Finding, attr_chain, call_name, canon, dominating_guards, norm, walk_no_nested
+from ..core import AnalysisError, Finding, attr_chain, call_name, canon, dominating_guards, helper_table, norm, walk_no_nested
 from ..dataflow import ReachingDefs
+from ..flowtools import result_cases
 from ..ranges import TOP, Interp
 
 U = "commonroad/common/util.py"
@@ -135,6 +136,20 @@ def numeric_isinstance_ok(test):
     return {"int", "float"} <= names
 
 
+def verdict_compares(val):
+    """the comparisons a returned truth value is made of (through and / or / not and the arms of a conditional
+    expression; the test of a conditional expression selects, it is not part of the verdict)"""
+    if isinstance(val, ast.Compare):
+        return [val]
+    if isinstance(val, ast.BoolOp):
+        return [c for v in val.values for c in verdict_compares(v)]
+    if isinstance(val, ast.UnaryOp) and isinstance(val.op, ast.Not):
+        return verdict_compares(val.operand)
+    if isinstance(val, ast.IfExp):
+        return verdict_compares(val.body) + verdict_compares(val.orelse)
+    return []
+
+
 def range_rule(repo, res, RULE="RANGE"):
     """interval abstract interpretation of AngleInterval.contains / __contains__ under the class invariant (shared with
     C08, whose orientation clause is exactly this containment)"""
@@ -157,8 +172,7 @@ def range_rule(repo, res, RULE="RANGE"):
         for node, text, proved in it.asserts:
             res.check(RULE, "%s: assert %s" % (qn, text), proved, mod, node, "%s: assert %s" % (qn, text), "the assertion can fail for an admissible interval (e.g. one longer than pi): containment raises AssertionError", qualname=qn)
         for node, val, e in it.returns:
-            cmps = [c for c in ast.walk(val) if isinstance(c, ast.Compare)]
-            for c in cmps:
+            for c in verdict_compares(val):
                 operands = [c.left] + list(c.comparators)
                 if not all(isinstance(o, (ast.LtE, ast.Lt, ast.GtE, ast.Gt)) for o in c.ops):
                     continue
@@ -212,12 +226,23 @@ def run(repo, res, tier):
     fn = av.methods["contains"]
     op = fn.args.args[1].arg
     n_sub = 0
-    for r in walk_no_nested(fn):
-        if not (isinstance(r, ast.Return) and r.value is not None):
+    rd_c = ReachingDefs(fn)
+    params_c = [a.arg for a in fn.args.args]
+    helpers_c = {k: v for k, v in helper_table(cls_info=av, repo=repo).items() if k[1] not in ("_offset", "offset")}
+
+    def scalar_side(guards):
+        """the case stands under `isinstance(op, <numbers>)` (or the false side of its negation)"""
+        for _t, pol, t in guards:
+            neg = isinstance(t, ast.UnaryOp) and isinstance(t.op, ast.Not)
+            t_ = t.operand if neg else t
+            if isinstance(t_, ast.Call) and call_name(t_) == "isinstance" and norm(t_.args[0]) == op and "Interval" not in norm(t_.args[1]) and pol != neg:
+                return True
+        return False
+
+    for case in result_cases(mod, fn, rd_c, params_c):
+        if case.value is None or scalar_side(case.guards):
             continue
-        g = dominating_guards(mod, r, stop=fn)
-        if any(pol and isinstance(t, ast.Call) and call_name(t) == "isinstance" and norm(t.args[0]) == op and "Interval" not in norm(t.args[1]) for t, pol in g):
-            continue  # the scalar branch
+        r = case.stmt
         n_sub += 1
 
         def atoms(e):
@@ -234,16 +259,15 @@ def run(repo, res, tier):
                 return "s2"
             return None
 
-        # locals (start_offset = self._offset(other.start)) are seen through
-        rd_c = ReachingDefs(fn)
+        # locals (start_offset = self._offset(other.start)) and one-return helpers of the class are seen through
         try:
-            val = ast.parse(canon(r.value, rd_c, r, [a.arg for a in fn.args.args]), mode="eval").body
+            val = ast.parse(canon(case.value, rd_c, r, params_c, helpers_c), mode="eval").body
         except SyntaxError:
-            val = r.value
+            val = case.value
         facts = inequalities(val, True, atoms) if isinstance(val, ast.Compare) else []
         want = [{"L1": 1, "o": -1, "L2": -1}, {"L1": 1, "o": -1, "e2": -1, "s2": 1}]
         ok = any(f in want and not strict for f, strict in facts)
-        res.check("SUBSET", "AngleInterval.contains(interval): offset(start) + length(arg) <= own length", ok, mod, r, "AngleInterval.contains: %s" % norm(r)[:110], "containment of an interval is not decided from where it starts plus how long it is (e.g. only its two end points are tested): an argument that runs across the gap of the interval is reported as contained although its middle is outside", qualname="AngleInterval.contains")
+        res.check("SUBSET", "AngleInterval.contains(interval): offset(start) + length(arg) <= own length", ok, mod, r, "AngleInterval.contains: %s" % norm(val)[:110], "containment of an interval is not decided from where it starts plus how long it is (e.g. only its two end points are tested): an argument that runs across the gap of the interval is reported as contained although its middle is outside", qualname="AngleInterval.contains")
     if n_sub < 1:
         raise AnalysisError("AngleInterval.contains: branch for interval arguments not found")
 
@@ -265,7 +289,6 @@ def run(repo, res, tier):
                 res.check("DISPATCH", "%s.contains dispatches on %s" % (cls.name, norm(n)), "Interval" in t, mod, n, "%s.contains: %s" % (cls.name, norm(n)), "dispatch on a concrete numeric type excludes the other numeric types", qualname="%s.contains" % cls.name)
 
     # ------------------------------------------------------------- CLOSED
-    from ..flowtools import result_cases
 
     def closed_forms(fn, p):
         """inequality sets of every value the predicate may return (locals, helpers of one return seen through)"""
